@@ -9,8 +9,8 @@
    of the real code do not depend on the numbering. *)
 From Coq Require Import ZArith List Bool.
 From Model Require Import PyBase Graph PeriodicTable Valence Kekule Thiele.
-From Gen Require Import Elements.
-From Proofs Require Import KekuleProofs KekuleExt KekuleValence KekuleThiele KekuleSound KekuleLink.
+From Gen Require Import Elements KekuleCls ThieleCls.
+From Proofs Require Import KekuleProofs KekuleExt KekuleValence KekuleThiele KekuleSound KekuleLink KekulePrep KekuleGenTie.
 Import ListNotations.
 Open Scope Z_scope.
 
@@ -318,6 +318,65 @@ Theorem C05_kekule_chain_examples :
   chain_of (ring [cH; cH; cH; cH; cH; cH] [4; 4; 4; 1; 4; 4]) [[1; 2; 3; 4; 5; 6]] = false.
 Proof. exact kekule_chain_examples. Qed.
 Print Assumptions C05_kekule_chain_examples.
+
+(* ---- EXTENSION ROUND 3: __prepare_rings on a well-drawn molecule produces what kekule_chain needs.  graph_ok g: the adjacency
+   is simple and symmetric (distinct row keys, distinct neighbours, no self loop, both directions carry the same order);
+   sssr_drawn g sssr: every ring of the SSSR that lies inside the aromatic atoms has aromatic bonds only (so the SSSR loop adds
+   no bond to the skeleton); r_singled p = []: no aromatic bond outside the rings was reset.  Then the skeleton is exactly the
+   aromatic bonds, it is simple and symmetric, and every ring atom's class in the relation (atom_class: from its own attributes
+   and bonds) is the one double_bonded / pyrroles say: `drawn` is a THEOREM about the model of __prepare_rings (atom loop,
+   quinone check, triple-bond check), no longer evaluated per input. *)
+Theorem C05_prepare_rings_drawn : forall g sssr p,
+  graph_ok g = true -> sssr_drawn g sssr = true -> prepare_rings g sssr = Ok p -> r_singled p = [] ->
+  r_rings p = scan_ord g 4 /\ rings_sym (r_rings p) = true /\ drawn g (r_rings p) (r_double p) (r_pyrroles p) = true.
+Proof. exact prepare_rings_drawn. Qed.
+Print Assumptions C05_prepare_rings_drawn.
+
+(* ... so the chain starts at the molecule: prepare_rings, any yielded form of each component search, written into the molecule,
+   is accepted by kekule_rel_core.  chain_hyp2 (evaluated per input): graph_ok, sssr_drawn, nothing reset, the skeleton split
+   into the components __kekule_full passes on (split_ok: still an input, the breadth-first split is not modelled) and every
+   component well formed (rings_wf2) with the restricted sets. *)
+Theorem C05_kekule_prepare_chain : forall g sssr p (comps : list (adjl * list Z * list Z * list kentry)),
+  prepare_rings g sssr = Ok p -> chain_hyp2 g sssr p (map fst comps) = true ->
+  (forall R dbi pyri f, In (R, dbi, pyri, f) comps ->
+     exists db_start bs maxy fuel ys r c, (dbi <> [] -> In db_start dbi) /\
+       kekule_component R dbi db_start pyri bs maxy fuel = Ok (ys, r, c) /\ In f ys) ->
+  kekule_rel_core g (apply_form g (concat (map snd comps))) = true.
+Proof. exact kekule_prepare_chain. Qed.
+Print Assumptions C05_kekule_prepare_chain.
+
+Theorem C05_kekule_prepare_chain_examples :
+  chain2_of benzene_a [[1; 2; 3; 4; 5; 6]] = true /\ chain2_of pyrrole_a [[1; 2; 3; 4; 5]] = true /\
+  chain2_of pyridine_a [[1; 2; 3; 4; 5; 6]] = true /\ chain2_of quinone_a [[1; 2; 3; 4; 5; 6]] = true /\
+  chain2_of (ring [cH; cH; cH; cH; cH; cH] [4; 4; 4; 1; 4; 4]) [[1; 2; 3; 4; 5; 6]] = false.
+Proof. exact kekule_prepare_chain_examples. Qed.
+Print Assumptions C05_kekule_prepare_chain_examples.
+
+(* ---- the classifier tied to the SOURCE: tools/gen_kekulecls.py re-reads Kekule.__prepare_rings on every run (Python ast, fail
+   closed) and writes its two per-atom decision trees - the quinone test `for n in double_bonded:` and the atom loop
+   `for n in rings:` - branch for branch into Gen.KekuleCls.  The hand-written model equals them for ALL integers, so an edit
+   of an element, a charge, a neighbour count, a hydrogen test or of the branch order in the source breaks these theorems (in
+   addition to the exhaustive grid correspondence on the running code). *)
+Theorem C05_gen_classify_eq : forall num chg rad nb h indb,
+  gen_classify num chg rad nb h indb = classify_atom num chg rad nb h indb.
+Proof. exact gen_classify_eq. Qed.
+Print Assumptions C05_gen_classify_eq.
+
+Theorem C05_gen_quinone_eq : forall num chg, gen_quinone_ok num chg = quinone_ok num chg.
+Proof. exact gen_quinone_eq. Qed.
+Print Assumptions C05_gen_quinone_eq.
+
+(* ... and the ring loop of Thiele.thiele: tools/gen_thielecls.py re-reads `for ring in self.sssr:` on every run and writes every
+   decision of it (ring sizes, the element tuple and the neighbour bound of the first filter, the sp2 / sp3 codes, the kind of
+   ring, the acceptor test, the whole hetero-atom chain incl. the donor test) into Gen.ThieleCls; ring_step_src / ring_step_t_src
+   (Proofs.KekuleGenTie) are the loop bodies written with these generated decisions only, and the models equal them. *)
+Theorem C05_gen_ring_step_eq : forall g s ring, ring_step_src g s ring = Thiele.ring_step g s ring.
+Proof. exact gen_ring_step_eq. Qed.
+Print Assumptions C05_gen_ring_step_eq.
+
+Theorem C05_gen_ring_step_t_eq : forall g s ring, ring_step_t_src g s ring = ring_step_t g s ring.
+Proof. exact gen_ring_step_t_eq. Qed.
+Print Assumptions C05_gen_ring_step_t_eq.
 
 (* ---- thiele() with the default fix_tautomers=True, algorithm-level model thiele_model_t (ring loop with acceptors / donors, the
    depth-first hydrogen-moving search, quinone stage, pruning, writing; tied by correspondence, the iteration orders of the
